@@ -21,6 +21,22 @@ Oracle (model independent, real code only):
     decrease, final error < 1e-6 relative),
   * Frenet frame orthonormal, curvature/torsion vs the exact formulas (Fractions, Leibniz rule for
     rational curves), scalar call == array call, rotation/scaling behaviour, circle = 1/r, twisted cubic.
+
+Findings on the pinned tree (classify labels; the model follows the PROPERTY in all three, so these
+inputs show up as model/implementation disagreements AND oracle failures):
+  * torsion-scalar-branch-uses-acceleration: Curve.torsion(t) with scalar t forms dot(v x a, a) == 0
+    instead of dot(v x a, a'), so it returns 0 for every curve;
+  * rational-curve-one-element-list-derivative-squeezed: Curve.derivative(t=[t0], d=2|3) of a rational
+    curve returns shape (dim,) instead of (1, dim); torsion([t0]) then returns a (1,3) array of
+    garbage and binormal/normal([t0]) raise IndexError;
+  * integrate-periodic-collapse-single-fold: BSplineBasis.integrate folds the periodic images once
+    (N[j] += N[-k-1+j]); for periodic bases with num_functions < periodic+1 images are lost, the
+    integrals do not add up to t1-t0, and SplineObject.center is wrong.
+Not a finding (outside the quantifier "sub-intervals of the domain"): integrate across the seam of
+a periodic basis raises TypeError ('NotImplementedType' object is not callable) — `raise
+NotImplemented(...)`; the model mirrors that class (tag integrate:seam-refusal).
+Quadrature-ERROR clauses of the property (insertion/elevation/splitting with non-polynomial
+integrands, convergence to analytic values) are oracle-only: no theorem covers them.
 """
 from fractions import Fraction as F
 import itertools
@@ -1152,8 +1168,6 @@ def _oracle_frenet_family(sp, s):
         return []
     if f == 'frenet' and dim != 3:
         return []
-    if _ill_conditioned(s):
-        return []
     jets = _jets(s)
     with np.errstate(all='ignore'):
         try:
@@ -1168,6 +1182,8 @@ def _oracle_frenet_family(sp, s):
                 arr = to_plain(fn(ts + ts, above=above))[:len(ts)]
             except Exception:   # noqa: BLE001
                 arr = None
+    if _ill_conditioned(s):
+        return []      # (an exception above is reported whatever the conditioning)
     for i, (t, (x, v, a, da)) in enumerate(zip(ts, jets)):
         v3 = list(v) + [F(0)] * (3 - len(v))
         a3 = list(a) + [F(0)] * (3 - len(a))
